@@ -83,9 +83,22 @@ func configs(quick bool) []Cfg {
 		Signals: both, Init: []string{"100", "100"},
 		Tokens:  [][]string{{"100", "105"}, {"100"}},
 		Trigger: true, Dts: []int64{1, 2}, Depth: 4}
+	// 9. huge prices: last-sent prices near the top of uint64 and collapses from them (|new-old|*10000 does not
+	//    fit 64 bits) and the jump 1 -> 2^64-1; interval 3600 s, so after the first send only the deviation decides.
+	huge := Cfg{Name: "huge-prices", Group: true, InitDE: 8,
+		Tunnels: []TunnelCfg{{Route: "tss", Signals: sigs(100, 300, 300, 300), Interval: 3600, Balance: 10 * tssTotal}},
+		Signals: both, Init: []string{"1", "100"},
+		Tokens: [][]string{{"m", "0", "1", "1000000000000000", "3000000000000000", "1600000000000000000", "18446744073709551615"}, {"100"}},
+		Dts:    []int64{1}, Depth: 5}
 	if quick {
-		return []Cfg{dev, itv, fund, fundBase, non, nog, mix, dpo, inc}
+		return []Cfg{dev, itv, fund, fundBase, non, nog, mix, dpo, inc, huge}
 	}
+	h2 := huge
+	h2.Tokens = [][]string{{"m", "0", "1", "1000000000000000", "1844674407370955", "1844674407370956", "3000000000000000", "1600000000000000000", "18446744073709551615"},
+		{"100", "18446744073709551615"}}
+	h2.InitDE = 12
+	h2.Depth = 7
+	out = append(out, h2)
 	i2 := inc
 	i2.Funds = []int64{1, baseFee}
 	i2.FundCap = 2 * tssTotal
